@@ -62,6 +62,15 @@ theorem checker_sound_entry (need : String → String → Nat → List Nat) (G :
     (R : Nat) (hR : R ∈ need fn nm md) (hdis : subMask R F0 = true) : ¬ Ob G true 0 F0 0 c F md :=
   Sound.checker_sound_entry need G C h F0 c F md fn nm hlt hc R hR hdis
 
+/-- ★ `interp_sound` with the entry points *defined* as "the functions of the slice whose address is taken anywhere in
+    the program" (`addrEntries ids taken`) instead of the translator's entry list: whatever the interpreter / code outside
+    the slice calls through a pointer is one of those.  The hypothesis `entriesCover` is discharged per run by `gen_entries`. -/
+theorem interp_sound_addr (need : String → String → Nat → List Nat) (G : Graph) (C : Cert) (h : certOK need G C = true)
+    (ids : List Nat) (taken : List Nat) (hcov : entriesCover ids G.entries taken = true)
+    (F0 c F md : Nat) (fn nm : String) (hobs : Ob (G.withEntries (addrEntries ids taken)) true 0 F0 0 c F md)
+    (hlt : c < G.size) (hc : (G.node c).op = .libc fn nm) (R : Nat) (hR : R ∈ need fn nm md) : subMask R F = false :=
+  Sound.interp_sound_addr need G C h ids taken hcov F0 c F md fn nm hobs hlt hc R hR
+
 /-- non-vacuity: see the `example`s at the end of Sandbox/Sound.lean (a reachable guarded call; the shapes of the `os/rm`
     and `os/open :a` escapes are rejected) -/
 example : certOK need Sound.exG Sound.exC = true := by decide
@@ -78,6 +87,30 @@ theorem gen_classified : classifiedAll externals externalsIdx = true := by decid
 open JanetModel.Gen.Sandbox in
 theorem gen_tables : definesOK defines capTable = true ∧ tableEq options keywordTable = true ∧ flagWritesOK flagWrites = true := by
   decide +kernel
+
+open JanetModel.Gen.Sandbox in
+theorem gen_entriesCover : entriesCover sliceIds graph.entries addressTaken = true := by decide +kernel
+
+open JanetModel.Gen.Sandbox in
+/-- ★ every address-taken function of the program (independent scan of the IR text: `Gen.Sandbox.addressTaken`, program
+    ids) that lies in the slice is an entry point of the checked graph; functions only ever handed to a spawner are `call`
+    targets at the hand-over site; the numbering agrees with the graph's name table. -/
+theorem gen_entries :
+    (∀ p ∈ addressTaken, ∀ i, sliceIds[i]? = some p → i ∈ graph.entries) ∧
+    handoversOK graph sliceIds handovers = true ∧ namesAgree progFns sliceIds fnNames = true :=
+  ⟨Sound.entriesCover_spec gen_entriesCover, by decide +kernel, by decide +kernel⟩
+
+open JanetModel.Gen.Sandbox in
+/-- non-vacuity of `gen_entries`: the entry points defined by the scan are many, and the scan is much larger than the slice -/
+example : (addrEntries sliceIds addressTaken).length > 20 ∧ addressTaken.length > 300 := by decide +kernel
+
+open JanetModel.Gen.Sandbox in
+/-- ★ the program as it is now, entry points = address-taken functions of the slice (no translator-chosen entry list):
+    if a requirement group of the OS-level call `c` is disabled when the interpreter run starts, `c` is never reached. -/
+theorem sandbox_enforced_addr (F0 c F md : Nat) (fn nm : String)
+    (hlt : c < graph.size) (hc : (graph.node c).op = .libc fn nm) (R : Nat) (hR : R ∈ need fn nm md) (hdis : subMask R F0 = true) :
+    ¬ Ob (graph.withEntries (addrEntries sliceIds addressTaken)) true 0 F0 0 c F md :=
+  Sound.checker_sound_entry_addr need graph cert gen_certOK sliceIds addressTaken gen_entriesCover F0 c F md fn nm hlt hc R hR hdis
 
 open JanetModel.Gen.Sandbox in
 /-- the instance of `checker_sound_entry` for the program as it is now -/
